@@ -1,6 +1,7 @@
 SPECIFICATION FairSpec
 CONSTANTS
   Peers = {1, 2}
+  Streams = {2}
   MaxTime = 4
   Timeout = 2
   MaxIdle = 0
